@@ -260,7 +260,8 @@ func main() {
 			}
 			pilotOK := perr == nil && esc == ""
 			if pilotOK {
-				pilotOK = delivered(r, nil, ag, tr, signer, sh, "pilot")
+				// success was reported: then every request was signed and every returned certificate is in the agent
+				pilotOK = delivered(r, r.CaseAlways("pilot", idx), ag, tr, signer, sh, "fault-free run")
 			}
 			closeFn()
 			if !pilotOK {
